@@ -61,9 +61,10 @@ Definition x_fcmp (a b : float) : option comparison :=
   end.
 
 (* Display of floats, for the values the harness selects (`simple_display` in c15.rs): NaN, +-inf, +-0,
-   integers below 2^53 (2^24 for f32), and multiples of 1/8 below 2^20; anything else gives "?".       *)
+   integers below 2^53 (2^24 for f32), and multiples of 1/8 below 2^20 (2^10 for f32, whose shortest
+   round-trip text is shorter than the exact expansion above that); anything else gives "?".       *)
 Definition s_q : str := [63].
-Definition x_f2s (intbound : Z) (f : float) : str :=
+Definition x_f2s (intbound fracbound : Z) (f : float) : str :=
   match Prim2SF f with
   | S754_nan => [78; 97; 78]
   | S754_infinity false => [105; 110; 102]
@@ -79,7 +80,7 @@ Definition x_f2s (intbound : Z) (f : float) : str :=
       if 0 <=? e then
         let a := m * 2 ^ e in
         if a <? intbound then sign ++ z_to_string a else s_q
-      else if (-3 <=? e) && (m <? 2 ^ 23) then
+      else if (-3 <=? e) && (m <? fracbound) then
         (* m / 2^k, k <= 3: integer part and the exact decimal fraction (m odd, so k digits) *)
         let k := - e in
         let ip := m / 2 ^ k in
@@ -127,7 +128,7 @@ Definition x_s2f (single : bool) (s : str) : option float :=
 Definition XF : Ext float := {|
   f_nan := nan; feq := PrimFloat.eqb; fabs := abs; fcmp := x_fcmp; ftrunc := x_ftrunc;
   round32 := x_round32; z2f32 := x_z2f32; z2f64 := x_z2f64;
-  f2s32 := x_f2s (2 ^ 24); f2s64 := x_f2s (2 ^ 53);
+  f2s32 := x_f2s (2 ^ 24) (2 ^ 13); f2s64 := x_f2s (2 ^ 53) (2 ^ 23);
   s2f32 := x_s2f true; s2f64 := x_s2f false;
   td2s := fun _ => s_q;                    (* Debug text of TimeDelta: only its nullness is compared *)
   s2dt := fun _ => None; s2td := fun _ => None   (* the date / duration parsers belong to C18; pairs not exercised *)
@@ -227,6 +228,13 @@ Definition run_vabs (shape_opt : bool) (n : nt) (v : @val float (bool_opt shape_
   (if shape_opt as s return @val float (bool_opt s (N n)) -> list Z
    then fun v => enc_r (enc (Opt (N n))) (vabs XF true n v)
    else fun v => enc_r (enc (Plain (N n))) (vabs XF false n v)) v.
+
+(* fn=number: Number::f32 f64 i32 i64 usize, to::<u8>, min_ / max_ (integers) *)
+Definition run_number (n : nt) (v : @nval float n) : list Z :=
+  enc_n F32 (number_to XF n F32 v) ++ enc_n F64 (number_to XF n F64 v) ++ enc_n I32 (number_to XF n I32 v)
+  ++ enc_n I64 (number_to XF n I64 v) ++ enc_n Usize (number_to XF n Usize v) ++ enc_n U8 (number_to XF n U8 v)
+  ++ (if is_float n then [] else c_int (number_min n) ++ c_int (number_max n)).
+Definition run_bool_ (b : bool) : list Z := c_bool (bool_ b) ++ c_bool (bool_ b).
 
 (* fn=order: both comparators on one pair *)
 Definition run_order (t : ty) (a b : @val float t) : list Z :=
